@@ -4,6 +4,7 @@ import (
 	"context"
 	"encoding/gob"
 	"fmt"
+	baseerrors "github.com/grailbio/base/errors"
 	"hash/fnv"
 	"io"
 	"math"
@@ -393,6 +394,10 @@ func userCall(ctx context.Context, sp *Spec, ni int) error {
 				panic(f.Msg)
 			case "error":
 				return fmt.Errorf("%s", f.Msg)
+			case "kinderror":
+				// an error of grailbio/base/errors with a kind but no severity, as user code that
+				// uses that package for its own errors returns
+				return baseerrors.E(baseerrors.NotExist, f.Msg)
 			case "temporary":
 				return tempError{f.Msg}
 			}
